@@ -200,6 +200,7 @@ def plan(tier, seed):
     jobs += [('tagmix', k, 16, q) for k in range(16)]
     jobs += [('docs', k, 16, 2 if q else 3) for k in range(16)]
     jobs += [('colltags', k, 8) for k in range(8)]
+    jobs += [('boundary', k, 6) for k in range(6)]
     jobs += [('trees', k, 32, 4 if q else 5, 1 if q else 2) for k in range(32)]
     jobs += [('fold', 3 if q else 5, k, 32) for k in range(32)]
     for i in range(len(SHAPES)):
@@ -299,6 +300,16 @@ def run_job(job, T):
                                     for o in ({}, {'canonical': True}):
                                         roundtrip(T, 'tags', ds, o)
         T.sample('tags', {'events': ds})
+    elif kind == 'boundary':
+        text = None
+        for i, ch in enumerate(U.BOUNDARY):
+            if i % job[2] != job[1]:
+                continue
+            for text in (ch, 'a' + ch + 'b', ch + ' ', 'x ' + ch + ' y'):
+                for ds in scalar_streams(text, STYLES, IMPL4[:2], CTX_RED):
+                    for o in OPTS_RED:
+                        roundtrip(T, 'boundary-chars', ds, o)
+        T.sample('boundary-chars', {'text': text})
     elif kind == 'colltags':
         # tagged collections (implicit and not) in every position, next to tagged / untagged neighbours: per-node emitter
         # state (prepared tag, prepared anchor, analysis) must not leak from one node to the next
